@@ -23,4 +23,7 @@ def check(ctx, rep):
     # entry leaves the queue only to go straight into the task (no second buffer on the consumer side)
     # ... and nothing but metrics takes up queue room while a handle is alive: the stop marker is sent by the last drop only
     B.rule_handle_drop(m, rep, 'R5h')
+    # 'panics raised by the wrapped sink never unwind into any caller thread': dropping a handle does not wait for, join or
+    # unwrap anything of the worker thread
+    B.rule_drop_nonblocking(m, rep, 'R5d')
     A.rule_loop(m, KeepOnly(rep, ('task-gets-the-dequeued-metric', 'dequeue-precedes-task', 'run/loop-shape'), 'R5'), 'R5')
